@@ -333,9 +333,11 @@ build() {
     } else if ((*di)->get_subtype() == CPPDeclaration::ST_typedef) {
       CPPTypedefType *tdef = (*di)->as_typedef_type();
 
-      if (tdef->_type->get_subtype() == CPPDeclaration::ST_struct) {
+      if (!tdef->is_template() &&
+          tdef->_type->get_subtype() == CPPDeclaration::ST_struct) {
         // A typedef counts as a declaration.  This lets us pick up most
-        // template instantiations.
+        // template instantiations.  (Not an alias template: what it stands
+        // for still depends on its parameters.)
         CPPStructType *struct_type =
           tdef->_type->resolve_type(&parser, &parser)->as_struct_type();
         scan_struct_type(struct_type);
